@@ -33,6 +33,21 @@ var c13StmtFrags = []struct{ name, text string }{
 	{"double operator", "a = 1 + * 2;"},
 	{"dangling comparison", "a = b == ;"},
 	{"range without end", "a = 1 .. ;"},
+	{"illegal character as loop variable", "foreach # in [1, 2] { b = 1; }"},
+	{"illegal character as index variable", "foreach #, e in [1, 2] { b = e; }"},
+	{"illegal character as second loop variable", "foreach i, @ in [1, 2] { b = i; }"},
+	{"number as loop variable", "foreach 3 in [1, 2] { b = 1; }"},
+	{"string as loop variable", "foreach \"e\" in [1, 2] { b = 1; }"},
+	{"illegal character as local name", "function o6() { local #; return 1; }"},
+	{"illegal character as function name", "function #() { return 1; }"},
+	{"number as function name", "function 3() { return 1; }"},
+	{"string as function name", "function \"f\"() { return 1; }"},
+	{"illegal character as parameter", "function o7(a, #) { return a; }"},
+	{"illegal character after a parameter", "function o7(a @) { return a; }"},
+	{"number as parameter", "function o7(1) { return 1; }"},
+	{"string as parameter", "function o7(a, \"s\") { return a; }"},
+	{"keyword as parameter", "function o7(if) { return 1; }"},
+	{"expression as parameter", "function o7(a + b) { return 1; }"},
 	{"nested ternary in true arm", "a = b ? (c ? 1 : 2) : 3;"},
 	{"nested ternary in false arm", "a = b ? 1 : c ? 2 : 3;"},
 	{"nested ternary in false arm parenthesised", "a = b ? 1 : (c ? 2 : 3);"},
@@ -297,6 +312,30 @@ func c13(c *ev.Ctx) {
 			}
 		}
 	}
+	// an illegal character followed by text that might be taken for the start of something
+	// else (a comment, an operator, an interpreter line), anywhere a token may stand: on the
+	// first line and on later ones, at the start of the script, after a statement, inside a
+	// block and inside a literal. Whatever follows up to the end of the line would parse if
+	// the character (and the rest of its line) were dropped.
+	illegals := []string{"#", "@", "^", "`", "\\", "\u00a0", "\ufffd", "\x01"}
+	followers := []string{"", "!", "!/usr/bin/evalfilter", "! x", "/", "//", "// c", "/*", "*", "=", "-", "#", ";", " ", "~", "|", "&", "$"}
+	for ii, ill := range illegals {
+		for fi, fol := range followers {
+			hole := ill + fol
+			spots := []string{
+				hole + "\nreturn 1;", hole + " trailing\nreturn 1;", "return 1; " + hole + " trailing", "return 1; " + hole, "x = 3; " + hole + "\nreturn x;",
+				"if ( true ) { x = 3 " + hole + "\n} return x;", "return len([1, 2 " + hole + ", \"unterminated ]\n]);", "return len([1, 2 " + hole + "\n]);",
+				"x = 1;\n" + hole + "\nreturn x;", "x = 1;\nx = 2; " + hole + " y\nreturn x;", "// first line\n" + hole + "\nreturn 1;", "function f(a " + hole + "\n) { return a; } return f(1);",
+				"return {\"k\": 1 " + hole + "\n};", "return (1 " + hole + "\n);", "return 1 + " + hole + "\n2;",
+			}
+			for si, sp := range spots {
+				cases = append(cases, pcase{fmt.Sprintf("ill/%d/%d/s%d", ii, fi, si), "illegal character followed by something in a fixed spot", sp})
+			}
+			for ci, ctx := range c13StmtCtx {
+				cases = append(cases, pcase{fmt.Sprintf("ill/%d/%d/c%d", ii, fi, ci), "illegal character followed by something in " + ctx.name, ctx.pre + "y = 1; " + hole + " rest\n y = 2;" + ctx.post})
+			}
+		}
+	}
 	// deeper, sampled
 	deep := c.Pick(6000, 300000)
 	maxDepth := c.Pick(2, 4)
@@ -393,6 +432,42 @@ func c13(c *ev.Ctx) {
 				return
 			}
 			c.Count("truncations_rejected", 1)
+		}
+	})
+	c13IllegalAnywhere(c)
+}
+
+// c13IllegalAnywhere: an illegal character put between any two tokens of a valid generated
+// program (functions, loops with one and two variables, switches, literals of every kind)
+// makes it invalid, whatever the neighbours are.
+func c13IllegalAnywhere(c *ev.Ctx) {
+	chars := []string{"#", "@", "^", "`", "\\", "\x01", "\x7f", "\u00a0", "\u2028", "\ufeff", "\ufffd", "\xff", "#!", "@@"}
+	n := c.Pick(200, 8000)
+	c.ParFor(n, func(i int) {
+		r := c.Rng("illegal-anywhere", i)
+		env := gen.NewEnv(r)
+		pg := &gen.ProgGen{R: r, E: &gen.ExprGen{R: r, Env: env, Calls: true}, CondFields: 2, MaxDepth: 2 + r.Intn(2), MaxStmts: 3, Funcs: 1 + r.Intn(2), Mutators: true}
+		p := pg.Program()
+		toks := (&gast.Printer{Mode: gast.Minimal}).ProgramTokens(p)
+		full := gast.Join(toks)
+		if _, err := eng.New(full, eng.Options{NoHook: true}); err != nil {
+			return // reported by the truncation stream
+		}
+		for k := 0; k <= len(toks); k++ {
+			id := fmt.Sprintf("illegal-anywhere/%d/%d", i, k)
+			if !c.Want(id) {
+				continue
+			}
+			ch := chars[r.Intn(len(chars))]
+			text := gast.Join(toks[:k]) + " " + ch + " " + gast.Join(toks[k:])
+			c.Case(text, true)
+			if evr, err := eng.New(text, eng.Options{NoHook: true, NoOptimize: k%2 == 0}); err == nil {
+				o := evr.Exec(map[string]interface{}{})
+				c.Violation(id, "accepted: illegal character between two tokens", map[string]interface{}{
+					"summary": fmt.Sprintf("Prepare accepted a program with the illegal character %q before token %d; running it gave %s\n  script: %s", ch, k, o.Desc(), text), "script": text})
+				return
+			}
+			c.Count("illegal_insertions_rejected", 1)
 		}
 	})
 }
